@@ -227,9 +227,32 @@ pub async fn lib_compress_fragmented(cfg: &Cfg, comp: &Comp, hash_len: usize, bu
         compression: comp.to_bitar(),
         metadata: Default::default(),
     };
-    let mut out: Vec<u8> = vec![];
+    // The output behaves like a buffered / deferred writer (tokio::fs::File, BufWriter): the bytes of a
+    // write only reach the medium with the NEXT write or a flush. What counts is what has reached the
+    // medium when create_archive returns - nobody flushes on its behalf afterwards.
+    struct Deferred {
+        committed: Vec<u8>,
+        pending: Vec<u8>,
+    }
+    impl tokio::io::AsyncWrite for Deferred {
+        fn poll_write(mut self: std::pin::Pin<&mut Self>, _cx: &mut std::task::Context<'_>, data: &[u8]) -> std::task::Poll<std::io::Result<usize>> {
+            let p = std::mem::take(&mut self.pending);
+            self.committed.extend_from_slice(&p);
+            self.pending = data.to_vec();
+            std::task::Poll::Ready(Ok(data.len()))
+        }
+        fn poll_flush(mut self: std::pin::Pin<&mut Self>, _cx: &mut std::task::Context<'_>) -> std::task::Poll<std::io::Result<()>> {
+            let p = std::mem::take(&mut self.pending);
+            self.committed.extend_from_slice(&p);
+            std::task::Poll::Ready(Ok(()))
+        }
+        fn poll_shutdown(self: std::pin::Pin<&mut Self>, cx: &mut std::task::Context<'_>) -> std::task::Poll<std::io::Result<()>> {
+            self.poll_flush(cx)
+        }
+    }
+    let mut out = Deferred { committed: vec![], pending: vec![] };
     bitar::api::compress::create_archive(Frag { data: src, pos: 0, n: frag, pend: false }, &mut out, &opts).await.map_err(|e| format!("{e}"))?;
-    Ok(out)
+    Ok(out.committed)
 }
 
 // ------------------------------------------------------------------ shared in-process sweep (C01 a, C11)
